@@ -197,6 +197,15 @@ def _cells(ctx, rng, tier):
                 cells.append(h)
     for _ in range(3000 if tier == "quick" else 60000):
         cells.append(gen.rand_cell(rng))
+    # the twelve pentagon base cells in full down to res 4 (5 thorough): all orientations of the leading digit seen
+    # from every face of the pentagon (rotation out of the deleted sub-sequence differs per face and per pentagon,
+    # the two polar ones have no cw-offset faces), plus random descendants at every finer resolution
+    for bc in gen.PENT:
+        base = gen.mkcell(0, bc, [])
+        for r in range(maxfull + 1, (4 if tier == "quick" else 5) + 1):
+            cells += gen.children(base, r)
+        for _ in range(1500 if tier == "quick" else 20000):
+            cells.append(gen.rand_cell(rng, res=rng.randrange(5, 16), bc=bc))
     return list(dict.fromkeys(cells)), nedges
 
 
